@@ -176,6 +176,10 @@ func NewRouterInfo(
 // createPublishedDate converts a time.Time to an I2P Date structure.
 func createPublishedDate(publishedTime time.Time) (*data.Date, error) {
 	millis := publishedTime.UnixMilli()
+	if millis == 0 {
+		// a zero Date means "undefined" in I2P; Validate rejects it as well
+		return nil, oops.Errorf("published date cannot be zero")
+	}
 	dateBytes := make([]byte, data.DATE_SIZE)
 	binary.BigEndian.PutUint64(dateBytes, uint64(millis))
 	publishedDate, _, err := data.ReadDate(dateBytes)
